@@ -17,6 +17,11 @@
 (*         and tot[id] are incremented.                                             *)
 (* The library (rows m, hashes mn, edge counts n, ids) is the operator form of    *)
 (* make_motif34lib (Motifs!GenId), whose refinement MotifLibImpl proves.          *)
+(* The arrays f and F are kept sparsely (absent entry = 0).  Variable names are    *)
+(* deliberately unusual (adjm, cu, tot, cnt, vis): TLC resolves formal parameter   *)
+(* names of library operators (A, u, f, ...) against the variables when it decides *)
+(* which constant definitions to pre-evaluate, and a clash silently disables the   *)
+(* caching of the class tables.                                                    *)
 (* Neighbourhoods are taken in the symmetrised matrix As = A | A.T.               *)
 (*                                                                               *)
 (* AsCoded = TRUE reproduces two faults of the Python port (the MATLAB original   *)
